@@ -124,6 +124,10 @@ def run(ctx):
         # the helper builds the Option<Bound> itself: `match cursor { Some(a) => Some(Bound::ExclusiveRaw(key(a) ++ suffix)), None => None }`
         cursor_v = lo
         bound_in_helper = True
+    elif kind_b is None and lo[0] == "call" and isinstance(lo[3], str) and generic_path(lo[3]).endswith("Option::map") and lo[4][1][0] == "agg" and lo[4][1][1] == "closure":
+        # `cursor.map(|a| { let mut v = key(&a); v.push(1); Bound::ExclusiveRaw(v) })`: the closure builds the bound itself
+        cursor_v = lo
+        bound_in_helper = True
     elif kind_b is None:
         r3.fail("C19.R3:bound-kind", f.path, common.span_of_block_term(f, rb), "start bound is not `cursor.map(Bound::ExclusiveRaw | InclusiveRaw)`: unrecognised-idiom (%s)" % ctx.show(lo, 3))
 
